@@ -79,7 +79,7 @@ Proof.
     assert (Hall' : forall r0 p0, In (r0, p0) rps -> rec_at d p0 = Some r0) by (intros; apply Hall; right; assumption).
     destruct (r_batch r =? 0).
     + rewrite update_index_eq.
-      destruct (index_step_spec d m r p r HI HR Hp eq_refl eq_refl) as (HI1 & HR1 & Hrec1).
+      destruct (index_step_spec d m r p r HI HR Hp eq_refl eq_refl eq_refl) as (HI1 & HR1 & Hrec1).
       destruct (IH (index_step d r p) te (rec_apply m r) ts HI1 HR1) as (A & B & C & D & E).
       * eapply txn_ok_same; eassumption.
       * intros r0 p0 Hin. rewrite Hrec1. auto.
